@@ -25,6 +25,10 @@ type progCase struct {
 	Args    []string `json:"args"` // classes of the boundary arguments (labels)
 	SQL     string   `json:"sql"`  // the whole program
 	Capture bool     `json:"capture"`
+	// Files: the program refers to the table files of progFiles (restored before the run);
+	// HasStdin: standard input holds progStdin.
+	Files    bool `json:"files,omitempty"`
+	HasStdin bool `json:"has_stdin,omitempty"`
 }
 
 type bval struct{ sql, class string }
@@ -242,19 +246,18 @@ func genOver(t *rapid.T, windowing bool) string {
 	return "OVER (" + strings.Join(parts, " ") + ")"
 }
 
-// knownShape is a genuine csvq defect this check has found; all of them are
+// knownShape is a genuine csvq defect this check has found: the signature it
+// is reported under and the program shapes that hit it. The entries that are
 // FIXED in /repo (rand e830292, json_value 8ca43eb, limit_percent 1f44dc9,
-// substring 86e8534, pad c07424e), so avoidKnownShapes is false. Each entry holds the
-// signature it is reported under and the program shapes that hit it. While
-// avoidKnownShapes is true the generator re-draws a case of such a shape so
-// that the search continues past it; set it to false to reproduce them all.
+// substring 86e8534, pad c07424e) only name the signature should the defect
+// come back; for an entry that is still open the generator re-draws a case of
+// that shape so that the search continues past it.
 type knownShape struct {
 	sig   string
 	what  string
 	match func(c progCase) bool
+	open  bool // not repaired in /repo: the generator keeps away from it
 }
-
-const avoidKnownShapes = false
 
 func argIn(c progCase, i int, classes ...string) bool {
 	if i >= len(c.Args) {
@@ -279,27 +282,28 @@ func anyArgBig(c progCase) bool {
 
 var knownShapes = []knownShape{
 	{"rand_range_overflow_fatal", "RAND(low, high): high - low + 1 overflows int64 (or an argument is NaN/Inf) -> rand.Int63n panics (lib/query/function.go Rand)",
-		func(c progCase) bool { return c.Kind == "func" && c.Name == "RAND" && len(c.Args) == 2 && anyArgBig(c) }},
+		func(c progCase) bool { return c.Kind == "func" && c.Name == "RAND" && len(c.Args) == 2 && anyArgBig(c) }, false},
 	{"json_value_empty_text_nil_fatal", "JSON_VALUE('', ''): with an empty query and empty (or blank) JSON text the loader returns a nil structure without an error and ConvertToValue calls Encode on it (lib/json/conversion.go:30, via json.LoadValue)",
 		func(c progCase) bool {
 			blank := []string{"empty", "space", "col_v", "col_s", "col_g"}
 			return c.Kind == "func" && c.Name == "JSON_VALUE" && argIn(c, 0, blank...) && argIn(c, 1, blank...)
-		}},
+		}, false},
 	{"limit_percent_unclamped_fatal", "LIMIT x PERCENT: the limit computed from the percentage is neither validated nor clamped: x = NaN, or a huge OFFSET (RecordLen+offset overflows), gives int(Ceil(..)) = MinInt64 and RecordSet[:limit] panics (lib/query/view.go View.Limit)",
 		func(c progCase) bool {
 			return c.Kind == "clause" && strings.Contains(c.SQL, "PERCENT") && (argIn(c, 0, "nan", "s_nan") || (strings.Contains(c.SQL, "OFFSET") && anyArgBig(c)))
-		}},
+		}, false},
 	{"substring_length_overflow_fatal", "SUBSTRING/SUBSTR(str, pos, len): start + len overflows int for a huge len and runes[start:end] panics (lib/query/function.go substr)",
 		func(c progCase) bool {
 			if c.Kind == "func" && (c.Name == "SUBSTRING" || c.Name == "SUBSTR") && len(c.Args) >= 3 {
 				return bigClasses[c.Args[2]] || strings.HasPrefix(c.Args[2], "col_")
 			}
 			return c.Kind == "clause" && c.Name == "SUBSTRING FROM FOR" && len(c.Args) >= 2 && bigClasses[c.Args[1]]
-		}},
+		}, false},
+	{"zero_column_table_aggregate_fatal", "an aggregate over a table without columns (see avoidKnownZeroColumnAggregate)", zeroColumnAggregate, avoidKnownZeroColumnAggregate},
 	{"pad_empty_padstr_fatal", "LPAD/RPAD(str, len, ''): the pad string's length 0 divides the missing length, int(Ceil(+Inf)) is negative and strings.Repeat panics (lib/query/function.go execStringsPadding)",
 		func(c progCase) bool {
 			return c.Kind == "func" && (c.Name == "LPAD" || c.Name == "RPAD") && argIn(c, 2, "empty", "col_v", "col_s", "col_g")
-		}},
+		}, false},
 }
 
 func knownShapeOf(c progCase) *knownShape {
@@ -311,9 +315,19 @@ func knownShapeOf(c progCase) *knownShape {
 	return nil
 }
 
+// openShapeOf: the case has the shape of a defect that is not repaired.
+func openShapeOf(c progCase) bool {
+	for i := range knownShapes {
+		if knownShapes[i].open && knownShapes[i].match(c) {
+			return true
+		}
+	}
+	return false
+}
+
 func genProg(t *rapid.T) progCase {
 	c := genProgOnce(t)
-	for i := 0; avoidKnownShapes && i < 30 && knownShapeOf(c) != nil; i++ {
+	for i := 0; i < 30 && openShapeOf(c); i++ {
 		c = genProgOnce(t)
 	}
 	return c
@@ -321,7 +335,19 @@ func genProg(t *rapid.T) progCase {
 
 func genProgOnce(t *rapid.T) progCase {
 	c := progCase{}
-	switch fw.Weighted(t, "kind", []int{42, 12, 16, 14, 4, 12}) {
+	switch fw.Weighted(t, "kind", []int{42, 12, 16, 14, 4, 12, 12, 16, 16, 8, 8, 8}) {
+	case 6:
+		return genFormatCase(t)
+	case 7:
+		return genTableFnCase(t)
+	case 8:
+		return genStmtCase(t)
+	case 9:
+		return genCursorCase(t)
+	case 10:
+		return genFlagCase(t)
+	case 11:
+		return genCommandCase(t)
 	case 0:
 		c.Kind = "func"
 		c.Name = fw.PickU(t, "fn", scalarNames)
@@ -633,13 +659,30 @@ func init() {
 
 var outCells = []string{"NULL", "1", "-1.5", "1e308", "FLOAT('NaN')", "FLOAT('-Inf')", "'a'", "''", "'line\nbreak'", "'tab\tin'", "'q\"uote'", "'a,b'", "'a|b'", "'日本語'", "'ｶﾅ'", "'é'", "TRUE", "UNKNOWN", "DATETIME('2012-02-03 09:18:15')", "' pad '", "'\\\\'", "'{\"k\":[1]}'", "'" + strings.Repeat("w", 3000) + "'", "'\x00'", "'￿'"}
 
+// root causes that are recognised by the function that raised the panic.
+var frameSignatures = map[string]string{
+	"query.Record.GroupLen":           "zero_column_table_aggregate_fatal",            // open, see avoidKnownZeroColumnAggregate
+	"query.(*StringFormatter).Format": "format_string_precision_fatal",                // fixed 9e786ec
+	"file.(*Handler).File":            "inline_table_over_cached_file_nil_handler",    // fixed 128f891
+	"query.(*View).replace":           "replace_repeated_key_negative_capacity_fatal", // fixed 884b635
+	"query.ViewMap.GetWithInternalId": "internal_id_zero_column_header_fatal",         // fixed c963649
+	"query.ParseExecuteStatements":    "execute_non_string_statement_fatal",           // fixed 263e9b2
+}
+
 // "reached": the built-in itself ran (or rejected its arguments); a name that
 // csvq does not know in that position is not a reached built-in.
 var notReached = map[string]bool{"E10401": true, "syntax": true}
 
 func checkProg(c progCase) (fw.Outcome, *fw.Violation) {
 	o := fw.Outcome{Classes: []string{"kind=" + c.Kind}}
-	res := execGuarded(run.Opt{Dir: loadScratch(), CaptureOut: c.Capture}, c.SQL, nil)
+	opt := run.Opt{Dir: progScratch(), CaptureOut: c.Capture}
+	if c.Files {
+		restoreProgFiles()
+	}
+	if c.HasStdin {
+		opt.HasStdin, opt.Stdin = true, progStdin
+	}
+	res := execGuarded(opt, c.SQL, nil)
 	if res.ParseErr {
 		return o, fw.Harness("generated program does not parse: %v\n%s", res.Err, clip(c.SQL, 800))
 	}
@@ -650,6 +693,11 @@ func checkProg(c progCase) (fw.Outcome, *fw.Violation) {
 		}
 		if strings.HasPrefix(v.Sig, "fatal:") && strings.HasSuffix(v.Sig, "@query.(*View).Limit") && strings.Contains(c.SQL, "PERCENT") {
 			v.Sig = "limit_percent_unclamped_fatal"
+		}
+		for frame, name := range frameSignatures {
+			if strings.HasPrefix(v.Sig, "fatal:") && strings.HasSuffix(v.Sig, "@"+frame) {
+				v.Sig = name
+			}
 		}
 		if k := knownShapeOf(c); k != nil && (strings.HasPrefix(v.Sig, "fatal:") || v.Sig == "hang" || v.Sig == "runaway_memory" || strings.HasPrefix(v.Sig, "panic_escaped")) {
 			v.Sig = k.sig
@@ -667,6 +715,11 @@ func checkProg(c progCase) (fw.Outcome, *fw.Violation) {
 		if len(c.Args) > 0 && !notReached[class] {
 			o.Fingerprint = fmt.Sprintf("%s|%s|%s|%s", c.Kind, c.Name, strings.Join(c.Args, ","), outcome)
 			o.Classes = append(o.Classes, "reached")
+		}
+	case "fmtstr", "tablefn", "stmt", "cursor", "flagset", "command":
+		o.Classes = append(o.Classes, c.Kind+"="+c.Name)
+		if class != "syntax" {
+			o.Fingerprint = fmt.Sprintf("%s|%s|%s|%s", c.Kind, c.Name, strings.Join(c.Args, ","), outcome)
 		}
 	case "clause", "flag":
 		o.Classes = append(o.Classes, "clause="+c.Name)
